@@ -66,9 +66,9 @@ FileStream(s) == FileStreamUpTo(s, Len(s.segs))
 
 (* ------------------------------ requests -------------------------------- *)
 IndexSet(L) == IF Dense THEN (-(L + 1))..(L + 1)
-               ELSE {i \in {0, 1, L \div 2, L - 1, -1, -L, L} : TRUE}
+               ELSE {i \in {0, 1, L \div 2, L - 1, L - 3, L - 4, L - 5, -1, -L, L} : TRUE}
 WindowSet(L) == IF Dense THEN {<<o, l>> : o \in 0..(L + 1), l \in {NoneV} \cup 0..(L + 1)}
-                ELSE {w \in {<<0, NoneV>>, <<1, 2>>, <<L \div 2, 1>>, <<L - 2, 5>>, <<0, 1>>, <<L, 1>>} : w[1] >= 0}
+                ELSE {w \in {<<0, NoneV>>, <<1, 2>>, <<L \div 2, 1>>, <<L - 2, 5>>, <<L - 6, 3>>, <<0, 1>>, <<L, 1>>} : w[1] >= 0}
 
 (* ------------------------------ actions --------------------------------- *)
 NoIter == [kind |-> "none", ch |-> "x", n |-> 0]
